@@ -57,6 +57,11 @@ class ViewBase:
         return f"ViewBase({self.tag})"
 
 
+class ObjSetList(list):
+    """A set of expression objects, kept as the list of its (pairwise unequal) elements."""
+    pass
+
+
 class ArbitraryBase:
     """Content of a module-level mutable container: whatever earlier calls left there."""
     def __init__(self, tag):
@@ -167,6 +172,25 @@ class Builtins:
                 return SNum(sym.E, False)
             if attr == "isclose":
                 return Builtin("math.isclose", self.m_isclose)
+            if attr in ("isfinite", "isnan", "isinf"):
+                # numbers of the model are finite reals (assumption: finite numeric content)
+                def fin(a, k, attr=attr):
+                    if not is_num(a[0]):
+                        raise Raise(self.make_exc("TypeError", f"math.{attr}: must be real number"), self.I.where())
+                    return attr == "isfinite"
+                return Builtin("math." + attr, fin)
+            if attr == "lcm":
+                def lcm(a, k):
+                    # lcm(m, n) * gcd(m, n) = m * n on positive ints (gcd as modelled below)
+                    g = self.m_gcd(a, k)
+                    if isinstance(g, int):
+                        import math
+                        return math.lcm(num_term(a[0]).as_long(), num_term(a[1]).as_long())
+                    m, n = num_term(a[0]), num_term(a[1])
+                    l = self.path.fresh("lcm", sym.I)
+                    self.path.assume(z3.And(l * g.term == m * n, l >= m, l >= n, l <= m * n))
+                    return SNum(l, True)
+                return Builtin("math.lcm", lcm)
             fns = {"sqrt": self.m_sqrt, "cbrt": self.m_cbrt, "log": self.m_log, "cos": self.m_cos,
                    "sin": self.m_sin, "gcd": self.m_gcd}
             if attr in fns:
@@ -225,6 +249,11 @@ class Builtins:
                     I.heap_log.append(("mutate-list", I.heap_log.note(o), attr, I.where()))
                     o.append(a[0])
                 return Builtin("list.append", app)
+            if attr == "extend":
+                def ext(a, k):
+                    I.heap_log.append(("mutate-list", I.heap_log.note(o), attr, I.where()))
+                    o.extend(list(self.iterate(a[0])))
+                return Builtin("list.extend", ext)
         if isinstance(o, SDict):
             if attr == "get":
                 return Builtin("dict.get", lambda a, k: self.dict_get(o, a[0], a[1] if len(a) > 1 else None))
@@ -937,6 +966,23 @@ class Builtins:
     def b_set(self, a, k):
         if a:
             items = self.iterate(a[0])
+            from .structural import is_expr_obj, struct_eq
+            if items and all(isinstance(x, Obj) and is_expr_obj(x) for x in items):
+                # a set of expression objects: an element is dropped when an earlier one is
+                # structurally equal to it (== / hash contract of C12); iterated in list order
+                # (order-independence of the consumer is C18's analysis)
+                kept = []
+                for x in items:
+                    dup = False
+                    for y in kept:
+                        if y is x or self.I.truth(struct_eq(self.I, y, x), "set-dedup"):
+                            dup = True
+                            break
+                    if not dup:
+                        kept.append(x)
+                r = ObjSetList(kept)
+                self.I.heap_log.append(("alloc-list", self.I.heap_log.note(r), None, self.I.where()))
+                return r
             return self.make_set(items)
         return self.fresh_set(sym.empty_set())
 
